@@ -143,3 +143,28 @@ package cache
 //@   flag callbacks_noheap
 //@   loop 0: modifies o
 //@   ensures result.Expiry > 0 && result.NotFoundExpiry > 0
+
+// retry of a failed invalidation: 1 s after the write, then after 5 s, 1 min, 5 min and 1 h; a retry that fails again is
+// re-armed as a NEW timer (the wheel has already dropped the one that fired) under the same key with the next delay, until
+// the schedule is exhausted
+//@ func nextDelay
+//@   property C06
+//@   results next, ok
+//@   ensures ok == (delay == time.Second || delay == 5*time.Second || delay == time.Minute || delay == 5*time.Minute)
+//@   ensures implies(delay == time.Second, next == 5*time.Second) && implies(delay == 5*time.Second, next == time.Minute)
+//@   ensures implies(delay == time.Minute, next == 5*time.Minute) && implies(delay == 5*time.Minute, next == time.Hour)
+//@   modifies nothing
+//@ func AddCleanTask
+//@   property C06
+//@   call SetTimer#0: assert arg_delay == time.Second
+//@   ensures twSets == old(twSets) + 1
+//@ func clean closure 0
+//@   property C06
+//@   flag callbacks_noheap
+//@   ghost at after task#0: te = ret
+//@   ghost at entry: nok = false
+//@   ghost at after nextDelay#0: nok = ret1
+//@   ghost at after nextDelay#0: nd = ret0
+//@   call SetTimer#0: assert arg_key == key && arg_delay == nd && nok && te != nil
+//@   ensures implies(te != nil && nok, twSets == old(twSets) + 1)
+//@   ensures implies(te == nil, twSets == old(twSets))
